@@ -26,8 +26,12 @@ CFG = dict(
                    "selects tables by distance from ANY want), so the correspondence compares end states only: number of "
                    "round trips and packfiles are observed and bounded by the oracle, not compared. 'Objects identical on "
                    "both sides' is by construction in the model (ids are contents) and checked byte for byte by the oracle. "
-                   "Receivers are generated full (no shallow commits before the transfer): with shallow receivers the set "
-                   "of tables that arrive depends on which haves were acknowledged.",
+                   "Random receivers are generated full; shallow senders/receivers are generated on linear chains "
+                   "(with merges the set of tables that arrive at a shallow receiver depends on which haves were "
+                   "acknowledged). Persistent faults: the watchdog (request count) is an oracle-only clause; the model "
+                   "gives the end state (nothing/partial objects stored, no ref written, error). A push from a shallow "
+                   "clone whose source remote is gone PANICS in the code as it is (NewShallowCommitError); the model "
+                   "reproduces it as outcome 2, the refusal itself is C09_push_refuses_shallow.",
         rule="witnesses: depth x want-order (parent/child refs at depth 1,2,0; chain of 5 commits with a ref on each = "
              "deterministic witness of the known finding; two tips sharing a near/far ancestor), max packfile size 1 with "
              "table batches {0,1,256} x k {256,1,2} (fetch) and pack.maxFileSize=1 (push), push to an empty remote with a "
@@ -35,7 +39,14 @@ CFG = dict(
              "batches 0/1): one response of the exchange lost entirely after the server processed the request - the answer "
              "to GET /refs/, the first JSON answer, the answer of the packfile exchange carrying the j-th commit for every j "
              "(and one past the end) - as a connection abort (panic(http.ErrAbortHandler)) and as an HTTP/2 stream reset "
-             "(TLS test server; fetch.Fetch retries), for fetch (96) and push (48); BATCH BOUNDARIES: chains transferring "
+             "(TLS test server; fetch.Fetch retries), for fetch (96) and push (48); PERSISTENT FAULTS (16): every packfile answer of upload-pack cut inside its last object / "
+             "lost by an HTTP/2 reset on EVERY attempt, bounded by the reference server's watchdog (40 requests); SHALLOW "
+             "repositories: push from a local side that lacks the tables of its older commits (last 1/2 tables kept) to a "
+             "remote holding nothing / c0 / c0..c1, the remote-tracking ref the history came through still there / renamed "
+             "/ gone, packfile size 1/default (36): refused, or everything that travels carries its table; fetch into a "
+             "shallow local side of a 7-commit chain whose new commits REUSE earlier tables (reverts), tip x kept tables x "
+             "depth {0,1,2} x k {256,1,2} x table batch {0,1,256} x packfile size (432, quick keeps ~1/4): every commit of "
+             "a moved ref within the requested depth has its table; BATCH BOUNDARIES: chains transferring "
              "n = 257 (quick) / 255, 256, 257, 513 (thorough) commits each with its own 1-row table, every 7th table "
              "already on the receiver, push (client offers tables in batches of 256) and fetch (server batches of 256), and "
              "n local-only commits unknown to the server so that popHaves needs several 256-have round trips; "
